@@ -233,7 +233,8 @@ def _skey(o, depth=0):
         return ("dict",) + tuple(sorted((repr(_skey(k, depth + 1)), _skey(v, depth + 1)) for k, v in o.items()))
     if isinstance(o, (set, frozenset)):
         return ("set",) + tuple(sorted(repr(_skey(x, depth + 1)) for x in o))
-    d = getattr(o, "__dict__", None)
+    from ..fingerprint import attrs
+    d = attrs(o)
     if d is not None:
         return (type(o).__qualname__,) + tuple(sorted((k, _skey(v, depth + 1)) for k, v in d.items()))
     return ("opaque", id(o))
